@@ -1,5 +1,6 @@
 /- C30 — property theorems -/
 import TornadoModel.C30.Lemmas
+import TornadoModel.C30.Multipart
 import TornadoModel.Base.Wire
 namespace TornadoModel.C30
 open TornadoModel.C06 (Str)
@@ -65,33 +66,66 @@ theorem urlencoded_roundtrip_entry (cfg : Config) (fields : List (Str × Bytes))
 example : ∀ f ∈ [(([97, 32, 233] : Str), ([0, 255, 38, 61] : Bytes)), ([97, 32, 233], [])],
     f.1.all (· < 256) = true ∧ f.2.all (· < 256) = true := by decide
 
-/-! ### multipart round trip (stated; tie only) -/
+/-! ### multipart round trip -/
 
-/-- hypotheses of the lossless clause for the quoted-string form -/
-structure WellFormed (cfg : Config) (b : Bytes) (parts : List Spec.Part) : Prop where
-  enabled : cfg.enabled = true
-  count : parts.length ≤ cfg.maxParts
-  boundary_ne : b ≠ []
-  boundary_plain : b.head? ≠ some 34
-  /-- the delimiter `--boundary` occurs nowhere in what the encoder writes for a part -/
-  fresh : ∀ p ∈ parts, Spec.occurs (dashes ++ b) (Spec.contentOf Spec.dispositionQ p) = false
-  header_size : ∀ p ∈ parts, (C43.utf8Enc (Spec.dispositionQ p)).length +
-      (match p.ctype with | some ct => 2 + (C43.utf8Enc (C43.ofAscii "Content-Type: " ++ ct)).length | none => 0) ≤ cfg.maxPartHeaderSize
-  names : ∀ p ∈ parts, p.name ≠ [] ∧ C06.hasForbidden p.name = false ∧ p.name.all Wire.isScalar = true
-  filenames : ∀ p ∈ parts, ∀ fn, p.filename = some fn → fn ≠ [] ∧ C06.hasForbidden fn = false ∧ fn.all Wire.isScalar = true
-  ctypes : ∀ p ∈ parts, ∀ ct, p.ctype = some ct → C06.hasForbidden ct = false ∧ C06.stripWs ct = ct ∧ ct.all Wire.isScalar = true
+/- `WellFormed cfg b parts` (the hypotheses of the lossless clause for the quoted-string form) is defined in
+   `Multipart.lean`: parser enabled, count and header sizes within the limits, a non-empty boundary that does not
+   start with a double quote and whose delimiter `--boundary` occurs nowhere in the encoded content of a part,
+   names / filenames / content types that can be sent in a quoted-string header. -/
 
 /-- the full lossless statement for the quoted-string form (false: see `multipart_trailing_backslash_refuted`) -/
 def multipart_roundtrip_full : Prop :=
   ∀ (cfg : Config) (b : Bytes) (parts : List Spec.Part), WellFormed cfg b parts →
     parseMultipart cfg b (Spec.encodeMultipart b parts) {} = .ok (Spec.expected parts)
 
-/-- the statement believed true of the code as it is: additionally no upload's field *name* ends in a backslash.
-    Not proved here (tie only: every generated form that satisfies the hypotheses is compared with `Spec.expected`). -/
+/-- the statement with the known finding excluded: additionally no upload's field *name* ends in a backslash.
+    Still false as written (`multipart_roundtrip_refuted`): "the delimiter does not occur in the content" does not
+    exclude a boundary containing CR LF whose delimiter straddles the end of a part's content and the next delimiter. -/
 def multipart_roundtrip_goal : Prop :=
   ∀ (cfg : Config) (b : Bytes) (parts : List Spec.Part), WellFormed cfg b parts →
     (∀ p ∈ parts, p.filename.isSome → p.name.getLast? ≠ some 92) →
     parseMultipart cfg b (Spec.encodeMultipart b parts) {} = .ok (Spec.expected parts)
+
+/-- `multipart_roundtrip`: every list of fields and files (arbitrary byte contents, repeated names, names with quotes,
+    backslashes, semicolons, non-ASCII) encoded as multipart/form-data with quoted-string parameters, under a boundary
+    whose delimiter occurs nowhere in the content, is parsed back to exactly those fields and files — provided no upload's
+    field name ends in a backslash (known finding) and the boundary contains no LF (every boundary that can be sent in a
+    Content-Type header; without it the statement is false, `multipart_roundtrip_refuted`). -/
+theorem multipart_roundtrip_partial (cfg : Config) (b : Bytes) (parts : List Spec.Part) (hwf : WellFormed cfg b parts)
+    (hbs : ∀ p ∈ parts, p.filename.isSome → p.name.getLast? ≠ some 92) (hlf : 10 ∉ b) :
+    parseMultipart cfg b (Spec.encodeMultipart b parts) {} = .ok (Spec.expected parts) :=
+  parseMultipart_sendable_accept cfg b parts hwf.enabled (hwf.sendable hbs hlf) hwf.count
+    (fun p hp => hwf.header_size p hp)
+
+/-- non-vacuity: a field whose name contains a quote, a backslash and a semicolon, and an upload with a content type and
+    binary content containing `--` and CR LF CR LF, under the boundary `zZ9` -/
+example : WellFormed {} [122, 90, 57]
+      [{ name := [97, 34, 92, 59, 233], value := [0, 255, 45, 45] },
+       { name := [102], filename := some [120, 92], ctype := some [116, 47, 112], value := [13, 10, 13, 10, 45, 45, 122] }] ∧
+    (∀ p ∈ ([{ name := [97, 34, 92, 59, 233], value := [0, 255, 45, 45] },
+       { name := [102], filename := some [120, 92], ctype := some [116, 47, 112], value := [13, 10, 13, 10, 45, 45, 122] }] :
+         List Spec.Part), p.filename.isSome → p.name.getLast? ≠ some 92) ∧ 10 ∉ ([122, 90, 57] : Bytes) := by
+  refine ⟨?_, by decide, by decide⟩
+  constructor <;> decide
+
+/-- the boundary `CR LF CR LF CR LF - -` and a first part with content type `--` and an empty value: the delimiter
+    `--\r\n\r\n\r\n--` occurs in no part's content, yet the separator `--\r\n\r\n\r\n--\r\n` starts inside the first
+    part (`…Content-Type: --\r\n\r\n\r\n` followed by `--\r\n…`), so the first piece is cut inside its header block and
+    the body is refused (HTTPInputError, "missing headers").  Such a boundary cannot be sent in a Content-Type header;
+    the hypothesis "the delimiter occurs nowhere in the content" of the clause is simply too weak for it. -/
+theorem multipart_roundtrip_refuted : ¬ multipart_roundtrip_goal := by
+  intro h
+  have hwf : WellFormed {} [13, 10, 13, 10, 13, 10, 45, 45]
+      [{ name := [97], ctype := some [45, 45], value := [] }, { name := [97], value := [] }] := by
+    constructor <;> decide
+  have h1 := h {} [13, 10, 13, 10, 13, 10, 45, 45]
+    [{ name := [97], ctype := some [45, 45], value := [] }, { name := [97], value := [] }] hwf (by decide)
+  have h2 : (parseMultipart {} [13, 10, 13, 10, 13, 10, 45, 45]
+      (Spec.encodeMultipart [13, 10, 13, 10, 13, 10, 45, 45]
+        [{ name := [97], ctype := some [45, 45], value := [] }, { name := [97], value := [] }]) {}).toOption = none := by
+    decide
+  rw [h1] at h2
+  cases h2
 
 /-- known finding `multipart/lossy/name-trailing-backslash`, at the `_parse_header` level: the Content-Disposition the
     encoder writes for the upload `name = \`, `filename = f` is parsed into a single parameter
@@ -99,6 +133,22 @@ def multipart_roundtrip_goal : Prop :=
 theorem multipart_trailing_backslash_refuted :
     (C43.parseHeader (C43.ofAscii "form-data; name=\"\\\\\"; filename=\"f\"")).toOption =
       some (C43.ofAscii "form-data", [(C43.ofAscii "name", C43.ofAscii "\"; filename=\"f")]) := by
+  decide
+
+/-- the known finding at the `parse_multipart_form_data` level: with every other hypothesis in place (boundary `b`),
+    the upload `name = \`, `filename = f` is not recovered — it comes back as an ordinary argument named `"; filename="f`.
+    Hence the side condition of `multipart_roundtrip_partial` on trailing backslashes cannot be dropped. -/
+theorem multipart_roundtrip_full_refuted : ¬ multipart_roundtrip_full := by
+  intro h
+  have hwf : WellFormed {} [98] [{ name := [92], filename := some [102], value := [118] }] := by
+    constructor <;> decide
+  have h1 := h {} [98] [{ name := [92], filename := some [102], value := [118] }] hwf
+  rw [parseMultipart_single {} [98] _ hwf (by decide)] at h1
+  have h2 : (finishPart {} { name := [92], filename := some [102], value := [118] }
+      (C43.parseHeader (dispValue [92] (some [102])))).toOption =
+      some { arguments := [(C43.ofAscii "\"; filename=\"f", [[118]])] } := by decide
+  rw [h1] at h2
+  revert h2
   decide
 
 /-! ### limits -/
@@ -197,5 +247,23 @@ theorem limits_enforced_header (cfg : Config) (b data : Bytes) (f r : Form)
   unfold pieces
   rw [hi]
   rfl
+
+/-- `limits_exact`: for an encoded form (hypotheses of the lossless clause other than the limits) the two limits are
+    exact — with `parts = max_parts` and a header block of exactly `max_part_header_size` bytes the form is accepted
+    and recovered, with one part more or one header byte more it is refused with HTTPInputError. -/
+theorem limits_exact (cfg : Config) (b : Bytes) (parts : List Spec.Part) (hen : cfg.enabled = true)
+    (hs : Sendable b parts) :
+    ((parts.length ≤ cfg.maxParts ∧ ∀ p ∈ parts, headerSize p ≤ cfg.maxPartHeaderSize) →
+      parseMultipart cfg b (Spec.encodeMultipart b parts) {} = .ok (Spec.expected parts)) ∧
+    ((parts.length > cfg.maxParts ∨ ∃ p ∈ parts, headerSize p > cfg.maxPartHeaderSize) →
+      parseMultipart cfg b (Spec.encodeMultipart b parts) {} = .error .httpInput) :=
+  ⟨fun h => parseMultipart_sendable_accept cfg b parts hen hs h.1 h.2,
+   fun h => parseMultipart_sendable_reject cfg b parts hen hs h⟩
+
+/-- non-vacuity: one part whose header block `Content-Disposition: form-data; name="a"` is 40 bytes; the limits 1 / 40 are
+    met with equality, 0 / 39 are exceeded -/
+example : Sendable [98] [{ name := [97], value := [118] }] ∧ headerSize { name := [97], value := [118] } = 40 := by
+  refine ⟨?_, by decide⟩
+  constructor <;> decide
 
 end TornadoModel.C30
